@@ -1125,3 +1125,136 @@ Proof.
   exists [(bs "a.com"%string, 1)], [], (bs "a.com:1"%string), (bs "2"%string), (bs "/"%string), 1.
   vm_compute. repeat split; discriminate.
 Qed.
+
+(* ================= several listeners in one process ================= *)
+Lemma tserve_full_default root xf hh up proto :
+  tserve root xf hh up proto = tserve_full root (default_fallbacks ++ xf) hh up proto.
+Proof. reflexivity. Qed.
+
+Lemma upd_nth_same {A} (f : A -> A) (d : A) : forall (l : list A) k,
+  f (nth k l d) = nth k l d -> upd_nth k f l = l.
+Proof.
+  induction l as [|x l IH]; intros [|k] H; cbn in *; try reflexivity.
+  - rewrite H. reflexivity.
+  - rewrite IH; auto.
+Qed.
+
+(* append to a slice whose capacity is used up never touches an existing array: the heap only
+   grows, and the result reads as old contents ++ new elements *)
+Lemma go_append_full hp s xs :
+  sl_len s = sl_cap s -> (sl_arr s < length hp)%nat -> sl_len s = length (nth (sl_arr s) hp []) ->
+  exists ext, fst (go_append hp s xs) = hp ++ ext /\
+    (sl_arr (snd (go_append hp s xs)) < length (hp ++ ext))%nat /\
+    slice_read (hp ++ ext) (snd (go_append hp s xs)) = slice_read hp s ++ xs.
+Proof.
+  intros Hfull Harr Hlen. unfold go_append.
+  destruct (Nat.leb (sl_len s + length xs) (sl_cap s)) eqn:E.
+  - apply Nat.leb_le in E. assert (Hx : xs = []) by (destruct xs; [reflexivity|cbn in E; lia]).
+    subst xs. exists []. cbn [fst snd sl_arr sl_len]. rewrite app_nil_r, Nat.add_0_r.
+    rewrite (upd_nth_same _ []).
+    + split; [reflexivity|]. split; [exact Harr|]. unfold slice_read. cbn [sl_arr sl_len]. rewrite app_nil_r. reflexivity.
+    + cbn [app]. apply firstn_skipn.
+  - eexists. cbn [fst snd sl_arr sl_len]. split; [reflexivity|]. split; [rewrite app_length; cbn; lia|].
+    unfold slice_read. cbn [sl_arr sl_len]. rewrite app_nth2 by lia. rewrite Nat.sub_diag. cbn [nth].
+    rewrite app_assoc. rewrite firstn_app.
+    assert (Hl : length (firstn (sl_len s) (nth (sl_arr s) hp []) ++ xs) = (sl_len s + length xs)%nat).
+    { rewrite app_length, firstn_length. lia. }
+    rewrite Hl, Nat.sub_diag. cbn [firstn]. rewrite app_nil_r.
+    rewrite firstn_all2 by lia. reflexivity.
+Qed.
+
+Lemma slice_read_ext hp ext s : (sl_arr s < length hp)%nat -> slice_read (hp ++ ext) s = slice_read hp s.
+Proof. intros H. unfold slice_read. rewrite app_nth1 by exact H. reflexivity. Qed.
+
+(* the invariant of the process: listener j holds the trie of group j, and its fallback list,
+   read from the CURRENT heap, is the built-in list followed by group j's own fallback hosts *)
+Definition srv_ok (hp : heap) (g : group) (sv : vtrie * gslice) : Prop :=
+  fst sv = tbuild (fst g) /\ (sl_arr (snd sv) < length hp)%nat /\
+  slice_read hp (snd sv) = default_fallbacks ++ snd g.
+
+Lemma srv_ok_ext hp ext g sv : srv_ok hp g sv -> srv_ok (hp ++ ext) g sv.
+Proof.
+  intros (H1 & H2 & H3). split; [exact H1|]. split; [rewrite app_length; lia|].
+  rewrite slice_read_ext; auto.
+Qed.
+
+Lemma Forall2_weaken {A B} (P Q : A -> B -> Prop) : (forall a b, P a b -> Q a b) ->
+  forall l l', Forall2 P l l' -> Forall2 Q l l'.
+Proof. intros H l l' F. induction F; constructor; auto. Qed.
+
+Lemma new_server_inv hp srvs gs g :
+  Forall2 (srv_ok hp) gs srvs ->
+  Forall2 (srv_ok (fst (new_server (hp, srvs) g))) (gs ++ [g]) (snd (new_server (hp, srvs) g)).
+Proof.
+  intros Hinv. unfold new_server, lit_slice.
+  set (hp1 := hp ++ [default_fallbacks]).
+  set (s1 := {| sl_arr := length hp; sl_len := length default_fallbacks; sl_cap := length default_fallbacks |}).
+  destruct (go_append_full hp1 s1 (snd g)) as (ext & He & Ha & Hr).
+  - reflexivity.
+  - unfold hp1, s1. cbn [sl_arr]. rewrite app_length. cbn. lia.
+  - unfold hp1, s1. cbn [sl_arr sl_len]. rewrite app_nth2 by lia. rewrite Nat.sub_diag. reflexivity.
+  - destruct (go_append hp1 s1 (snd g)) as [hp2 s2] eqn:E. cbn [fst snd] in *. subst hp2.
+    apply Forall2_app.
+    + unfold hp1. rewrite <- app_assoc. revert Hinv. apply Forall2_weaken. intros a b. apply srv_ok_ext.
+    + constructor; [|constructor]. split; [reflexivity|]. split; [exact Ha|]. cbn [snd]. rewrite Hr.
+      unfold slice_read, hp1, s1. cbn [sl_arr sl_len]. rewrite app_nth2 by lia. rewrite Nat.sub_diag. cbn [nth].
+      rewrite firstn_all. reflexivity.
+Qed.
+
+Lemma process_inv : forall groups, Forall2 (srv_ok (fst (process groups))) groups (snd (process groups)).
+Proof.
+  induction groups as [|g gs IH] using rev_ind.
+  - constructor.
+  - unfold process in *. rewrite fold_left_app. cbn [fold_left].
+    destruct (fold_left new_server gs ([], [])) as [hp srvs]. cbn [fst snd] in IH.
+    apply new_server_inv. exact IH.
+Qed.
+
+Lemma Forall2_nth_error {A B} (P : A -> B -> Prop) : forall l l' i a,
+  Forall2 P l l' -> nth_error l i = Some a -> exists b, nth_error l' i = Some b /\ P a b.
+Proof.
+  induction l as [|x l IH]; intros l' [|i] a H Hn; cbn in Hn; try discriminate; inversion H; subst.
+  - injection Hn as <-. eexists; split; [reflexivity|assumption].
+  - cbn. eapply IH; eauto.
+Qed.
+
+(* routing on listener i depends only on listener i's own site group: whatever other listeners
+   were created before or after it in the process, it routes as a server created alone *)
+Lemma fallback_list_is_per_listener : forall groups i g hh up proto,
+  nth_error groups i = Some g ->
+  mserve groups i hh up proto = Some (tserve (tbuild (fst g)) (snd g) hh up proto).
+Proof.
+  intros groups i g hh up proto Hn.
+  destruct (Forall2_nth_error _ _ _ _ _ (process_inv groups) Hn) as ([root s] & Hs & Hroot & _ & Hread).
+  unfold mserve, mserve_st. rewrite Hs. cbn [fst snd] in *. subst root. rewrite Hread. reflexivity.
+Qed.
+
+Lemma listener_independent : forall groups groups' i i' hh up proto,
+  nth_error groups i = nth_error groups' i' -> nth_error groups i <> None ->
+  mserve groups i hh up proto = mserve groups' i' hh up proto.
+Proof.
+  intros groups groups' i i' hh up proto He Hs.
+  destruct (nth_error groups i) as [g|] eqn:E; [|contradiction].
+  rewrite (fallback_list_is_per_listener _ _ _ _ _ _ E), (fallback_list_is_per_listener _ _ _ _ _ _ (eq_sym He)).
+  reflexivity.
+Qed.
+
+Lemma listener_routes_as_spec : forall groups i g hh up proto,
+  nth_error groups i = Some g ->
+  mserve groups i hh up proto = Some (spec (fst g) (snd g) hh up proto).
+Proof.
+  intros. rewrite (fallback_list_is_per_listener _ _ _ _ _ _ H), route_spec. reflexivity.
+Qed.
+
+(* what the per-listener allocation buys: were the list one shared slice with spare capacity
+   (three successive appends leave len 3 / cap 4), the second listener's append would overwrite
+   the first listener's designated fallback host *)
+Lemma shared_list_leaks :
+  let hp0 := [default_fallbacks ++ [[]]] in
+  let shared := {| sl_arr := 0; sl_len := 3; sl_cap := 4 |} in
+  let ga : group := ([(bs "a.example"%string, 1)], [bs "a.example"%string]) in
+  let gb : group := ([(bs "b.example"%string, 2)], [bs "b.example"%string]) in
+  mserve_st (fold_left (new_server_shared shared) [ga; gb] (hp0, [])) 0 (bs "zzz"%string) (bs "/"%string) 1
+    = Some (NotFound 404) /\
+  mserve [ga; gb] 0 (bs "zzz"%string) (bs "/"%string) 1 = Some (Site 1 (bs "/"%string)).
+Proof. vm_compute. split; reflexivity. Qed.
